@@ -814,14 +814,27 @@ impl WorldInner {
         (out, None)
     }
 
-    fn quote_of(&self, spec: &HopSpec, transit: &[u8], v6: bool) -> Vec<u8> {
+    /// The part of the in-transit datagram that the responder quotes.
+    ///
+    /// RFC 1812 4.3.2.3: an ICMPv4 error should not exceed 576 octets; RFC 4443 2.4(c): an ICMPv6
+    /// error must not exceed the 1280 octet minimum MTU.  RFC 4884 messages additionally need the
+    /// length of the padded original datagram to fit the 8 bit length field.
+    fn quote_of(&self, spec: &HopSpec, transit: &[u8], v6: bool, ext_len: usize) -> Vec<u8> {
         let hl = if v6 { 40 } else { usize::from(transit[0] & 0x0f) * 4 };
         let n = match spec.quote {
             Quote::Min8 => hl + 8,
             Quote::Plus(n) => hl + n,
             Quote::Full => usize::MAX,
         };
-        let cap = if v6 { 1232 } else { 65_535 - 28 };
+        let structured = !matches!(spec.rfc4884, Rfc4884::None);
+        let cap = if v6 {
+            (1232 - ext_len) & !7
+        } else if structured || spec.quote != Quote::Full {
+            (548 - ext_len) & !3
+        } else {
+            // classic routers that quote the entire datagram
+            65_535 - 28
+        };
         transit[..transit.len().min(n).min(cap)].to_vec()
     }
 
@@ -834,7 +847,7 @@ impl WorldInner {
         };
         let word = if wp.v6 { 8 } else { 4 };
         let err = |typ4: u8, code4: u8, typ6: u8, code6: u8| -> Vec<u8> {
-            let q = self.quote_of(spec, transit, wp.v6);
+            let q = self.quote_of(spec, transit, wp.v6, ext_bytes.as_ref().map_or(0, Vec::len));
             let body = wire::build_err_body(&q, ext_bytes.as_deref(), spec.rfc4884, word);
             match responder {
                 IpAddr::V4(_) => wire::build_icmp4_error(typ4, code4, &body),
@@ -938,7 +951,7 @@ impl WorldInner {
             }
         }
         let host6 = self.cfg.host_v6;
-        let q = self.quote_of(spec, &t, wp.v6);
+        let q = self.quote_of(spec, &t, wp.v6, 0);
         let word = if wp.v6 { 8 } else { 4 };
         let body = wire::build_err_body(&q, None, Rfc4884::None, word);
         let (t4, c4, t6, c6) = if is_target { (3, 3, 1, 4) } else { (11, 0, 3, 0) };
